@@ -32,7 +32,14 @@ prepare() { # $1 = patch file or "" for baseline
 }
 
 run_check() { # $1 = property
-    VERIF_REPO="$S/repo" VERIF_DIR="$S/out" "$S/target/release/rosu-sim" check "$1" "$TIER" >"$S/run.log" 2>&1
+    # the patched library is untrusted code: run it as an unprivileged user when we are root (a seeded change once
+    # unlinked /dev/full through a real-OS probe)
+    if [ "$(id -u)" = 0 ] && command -v setpriv >/dev/null 2>&1; then
+        chmod -R a+rwX "$S" 2>/dev/null
+        VERIF_REPO="$S/repo" VERIF_DIR="$S/out" setpriv --reuid=65534 --regid=65534 --clear-groups "$S/target/release/rosu-sim" check "$1" "$TIER" >"$S/run.log" 2>&1
+    else
+        VERIF_REPO="$S/repo" VERIF_DIR="$S/out" "$S/target/release/rosu-sim" check "$1" "$TIER" >"$S/run.log" 2>&1
+    fi
 }
 
 total=0; caught=0; missed=0; errors=0
